@@ -115,6 +115,36 @@ func TestVerifHexBounded(t *testing.T) {
 			}
 		}
 	}
+	// Bytes as JSON: the wire form is "0x" + lower-case hex for every length
+	// (incl. 0), and encode -> decode into a reused destination holding a
+	// longer previous value gives back exactly the encoded bytes
+	for n := 0; n <= 70; n++ {
+		cases++
+		v := make(Bytes, n)
+		for i := range v {
+			v[i] = byte(0xa0 + i)
+		}
+		out, err := v.MarshalJSON()
+		want := "\"0x"
+		for _, b := range v {
+			want += string("0123456789abcdef"[b>>4]) + string("0123456789abcdef"[b&15])
+		}
+		want += "\""
+		if err != nil || string(out) != want {
+			fails++
+			if fails <= 10 {
+				fmt.Printf("BOUNDED-FAIL Bytes of length %d encodes as %s (err=%v), want %s\n", n, out, err, want)
+			}
+			continue
+		}
+		dst := Bytes(bytes.Repeat([]byte{0xee}, 80))
+		if err := dst.UnmarshalJSON(out); err != nil || !bytes.Equal(dst, v) {
+			fails++
+			if fails <= 10 {
+				fmt.Printf("BOUNDED-FAIL Bytes of length %d: decoding its own encoding %s gives %x (err=%v)\n", n, out, []byte(dst), err)
+			}
+		}
+	}
 	fmt.Printf("BOUNDED cases=%d failures=%d exhaustive=true\n", cases, fails)
 	if fails > 0 {
 		t.Fail()
